@@ -336,6 +336,7 @@ func (c *Ctx) Gate(fn *ssa.Function, spec string, tgt Target, opt Opt) {
 	for e := range cut {
 		allGood[e] = true
 	}
+	propRets := map[ssa.Instruction]bool{}
 	for _, ci := range sites {
 		val, ok := ci.(ssa.Value)
 		if !ok {
@@ -355,6 +356,7 @@ func (c *Ctx) Gate(fn *ssa.Function, spec string, tgt Target, opt Opt) {
 				for _, rv := range ret.Results {
 					if r.IsResult(rv) {
 						prop = true
+						propRets[ret] = true
 					}
 				}
 			}
@@ -412,8 +414,7 @@ func (c *Ctx) Gate(fn *ssa.Function, spec string, tgt Target, opt Opt) {
 	reached := ReachFrom([]*ssa.BasicBlock{fn.Blocks[0]}, allGood)
 	var hit []string
 	for _, ti := range tins {
-		if reached[ti.Block()] {
-			// a target in the same block as the gate's test but before it: check order
+		if reached[ti.Block()] && !propRets[ti] {
 			hit = append(hit, c.At(ti))
 		}
 	}
